@@ -46,7 +46,11 @@ func oneLine(s string) string {
 // runNode runs one cell.  A panic in the calling goroutine is recovered; a panic
 // inside a goroutine started by the generated Run() cannot be (the whole oracle
 // runs in a child process of simgen for that reason).
-func runNode(name string, params, states []float64, inputs [][]float64, T int) (outputs [][]float64, finalStates []float64, panicMsg string) {
+//
+// dims: the model's dimension sizes.  The rows of a parameter column are laid out for the MODEL-WIDE dimension sizes
+// (the maximum of each dimension parameter over all nodes of the model, FindDimensions of the whole table), so a
+// node's own parameters can only be decoded with those; nil = take them from the node's own column.
+func runNode(name string, dims []int, params, states []float64, inputs [][]float64, T int) (outputs [][]float64, finalStates []float64, panicMsg string) {
 	defer func() {
 		if r := recover(); r != nil {
 			panicMsg = oneLine(fmt.Sprint(r))
@@ -57,7 +61,9 @@ func runNode(name string, params, states []float64, inputs [][]float64, T int) (
 	for i, v := range params {
 		p.Set2(i, 0, v)
 	}
-	dims := model.FindDimensions(p)
+	if dims == nil {
+		dims = model.FindDimensions(p)
+	}
 	model.InitialiseDimensions(dims)
 	model.ApplyParameters(p)
 	s := data.NewArray2DFloat64(1, len(states))
@@ -89,6 +95,7 @@ func runNode(name string, params, states []float64, inputs [][]float64, T int) (
 
 func runOracle(c *simCase, w *bufio.Writer) {
 	T := c.T
+	modelDims := make([][]int, len(c.Models))
 	known := make([]bool, len(c.Models))
 	catNO := make([]int, len(c.Models))
 	results := make([][]nodeResult, len(c.Models))
@@ -112,6 +119,15 @@ func runOracle(c *simCase, w *bufio.Writer) {
 			}()
 			d := factory().Description()
 			catNO[mi] = len(d.Outputs)
+			if len(d.Dimensions) > 0 && m.N > 0 {
+				all := data.NewArray2DFloat64(m.NP, m.N)
+				for n := 0; n < m.N; n++ {
+					for p := 0; p < m.NP; p++ {
+						all.Set2(p, n, m.Params[n][p])
+					}
+				}
+				modelDims[mi] = factory().FindDimensions(all)
+			}
 			if len(d.Inputs) != m.NI || len(d.Outputs) != m.NO {
 				fmt.Fprintf(w, "ORACLE-WARN model %s: case says NI=%d NO=%d, catalogue says %d inputs %d outputs\n",
 					m.Name, m.NI, m.NO, len(d.Inputs), len(d.Outputs))
@@ -180,7 +196,7 @@ func runOracle(c *simCase, w *bufio.Writer) {
 				for v := range inputs {
 					fed[v] = append([]float64{}, inputs[v]...)
 				}
-				outputs, states, msg := runNode(m.Name, m.Params[row], m.States[row], inputs, T)
+				outputs, states, msg := runNode(m.Name, modelDims[mi], m.Params[row], m.States[row], inputs, T)
 				if msg != "" {
 					fmt.Fprintf(w, "ORACLE-PANIC %s %d %s\n", m.Name, row, msg)
 					outputs = make([][]float64, catNO[mi])
